@@ -264,19 +264,19 @@ def coq_term(case, model):
             return None
         rhs = "Ret (%s, %s)" % (coq_payload(m[1]), _wl(ws[int(m[2][2:]):]))
     if op == "rnd.gen_biguint":
-        return "gen_biguint %s %s" % (a[0][2:], _wl(ws)), rhs
+        return "gen_biguint rand %s %s" % (a[0][2:], _wl(ws)), rhs
     if op == "rnd.gen_bigint":
-        return "gen_bigint %s %s" % (a[0][2:], _wl(ws)), rhs
+        return "gen_bigint rand %s %s" % (a[0][2:], _wl(ws)), rhs
     if op == "rnd.below":
-        return "gen_biguint_below %s %s" % (coq_list(a[0]), _wl(ws)), rhs
+        return "gen_biguint_below rand %s %s" % (coq_list(a[0]), _wl(ws)), rhs
     if op == "rnd.urange":
-        return "gen_biguint_range addsub %s %s %s" % (coq_list(a[0]), coq_list(a[1]), _wl(ws)), rhs
+        return "gen_biguint_range rand addsub %s %s %s" % (coq_list(a[0]), coq_list(a[1]), _wl(ws)), rhs
     if op == "rnd.irange":
-        return "gen_bigint_range addsub %s %s %s" % (coq_bigint(a[0]), coq_bigint(a[1]), _wl(ws)), rhs
+        return "gen_bigint_range rand signs addsub %s %s %s" % (coq_bigint(a[0]), coq_bigint(a[1]), _wl(ws)), rhs
     if op == "rnd.uu_incl":
-        return ("(do u <- uu_new_inclusive addsub %s %s; uu_sample addsub u %s)"
+        return ("(do u <- uu_new_inclusive rand addsub %s %s; uu_sample rand addsub u %s)"
                 % (coq_list(a[0]), coq_list(a[1]), _wl(ws))), rhs
     if op == "rnd.ui_incl":
-        return ("(do u <- ui_new_inclusive addsub %s %s; ui_sample addsub u %s)"
+        return ("(do u <- ui_new_inclusive rand signs addsub %s %s; ui_sample rand signs addsub u %s)"
                 % (coq_bigint(a[0]), coq_bigint(a[1]), _wl(ws))), rhs
     return None
